@@ -17,6 +17,20 @@ def main():
     ap.add_argument("--replay", default=None)
     a = ap.parse_args()
     common.quiet()
+    if a.replay:
+        # a replay re-runs the property's check with the seed and tier recorded in the replay file, so that the same
+        # generated cases (and hence the recorded failing input, which is reported first) are produced again
+        import json
+        rp = a.replay if os.path.isabs(a.replay) else os.path.join(common.VERIF, a.replay)
+        try:
+            with open(rp) as f:
+                rj = json.load(f)
+            os.environ["VERIF_SEED"] = str(rj.get("seed", 0))
+            a.tier = rj.get("tier", a.tier)
+            print(f"replaying {a.replay}: seed={rj.get('seed')} tier={a.tier} kind={rj.get('kind')}")
+        except Exception as e:  # noqa
+            print(f"cannot read replay file {a.replay}: {e}")
+            sys.exit(2)
     ctx = common.Ctx(a.prop, a.tier if a.tier in ("quick", "thorough") else "quick")
     try:
         mod = importlib.import_module(f"props.{a.prop}")
